@@ -24,7 +24,9 @@ fn flat_match(e: &str, name: &str) -> bool {
     // alternation path is not on both sides of the comparison.
     use mc_core::model::dewey::LetterWeight;
     use mc_core::model::pattern as mpat;
-    if !e.contains("**") {
+    // whether a comparison pattern without a base ('>=1') compiles is left open by C02: the
+    // library decides for such a leaf
+    if !e.contains("**") && !e.starts_with(['<', '>']) {
         let (r, a) = (mpat::matches_flat(e, name, LetterWeight::Rank), mpat::matches_flat(e, name, LetterWeight::AsciiLower));
         if r == a {
             return r.unwrap_or(false);
